@@ -101,6 +101,9 @@ class ContainerBase:
         the original. References to other containers (e.g. descriptor_container of a state) are kept.
         """
         copied = copy.copy(self)
+        # observable members (node) are stored per instance: the copy gets its own storage, it starts with the same node
+        copied.__dict__.pop('_property_instance_data', None)
+        copied.node = self.node
         for prop_name, _ in self.sorted_container_properties():
             value = self.get_actual_value(prop_name)
             if value is not None:
